@@ -65,7 +65,7 @@ deriving Repr, Inhabited, DecidableEq
 inductive EFut | pending | result (v : Val) | exc (e : Exc)
 deriving Repr, Inhabited, DecidableEq
 
-inductive Cb | adone (f : Nat) | trykill
+inductive Cb | adone (f : Nat) | trykill | usercb (raises : Bool)
 deriving Repr, Inhabited, DecidableEq
 
 inductive Notif | finished | excepted | killed | paused | played | running | waiting
@@ -476,11 +476,13 @@ def tickCb (c : Cfg) (cb : Cb) : Cfg :=
     match cb with
     | .adone f => awaitableDone c f
     | .trykill => tryKilling c
+    | .usercb raises => if raises then (fail c (.user 8)).1 else c     -- callback_excepted → fail (repair B guards terminated)
   else c
 
 inductive Ev
   | tick | tickCb (cb : Cb) | pause | play | kill | resume (v : Option Val) | fail (e : Exc) | cancelFut
   | complete (f : Nat) (o : EFut)
+  | callSoon (raises : Bool)        -- `Process.call_soon(cb)`: a task that runs `cb` through `_run_task`
 deriving Repr, Inhabited, DecidableEq
 
 def step (P : Prog) (c : Cfg) : Ev → Cfg × RetV
@@ -493,20 +495,11 @@ def step (P : Prog) (c : Cfg) : Ev → Cfg × RetV
   | .fail e => fail c e
   | .cancelFut => cancelFut c
   | .complete f o => (complete c f o, .none)
+  | .callSoon r => ({ c with ready := c.ready ++ [.usercb r] }, .none)
 
 def run (P : Prog) (c0 : Cfg) (evs : List Ev) : Cfg := evs.foldl (fun c e => (step P c e).1) c0
 
-/-! ### the six explorer programs -/
-def progOf : String → Prog
-  | "Sync2" => fun fn _ _ _ => if fn = 0 then ⟨0, .ret (.cont 1 [1] [(0, 2)])⟩ else ⟨0, .ret (.stop (some 3) true)⟩
-  | "Async2" => fun fn _ _ _ => if fn = 0 then ⟨2, .ret (.cont 1 [] [])⟩ else ⟨1, .ret (.stop (some 3) true)⟩
-  | "Waiter" => fun fn _ _ _ => if fn = 0 then ⟨0, .ret (.wait 1)⟩ else ⟨0, .ret (.stop (some 7) true)⟩
-  | "WaitAsync" => fun fn _ _ _ => if fn = 0 then ⟨1, .ret (.wait 1)⟩ else ⟨1, .ret (.stop (some 7) true)⟩
-  | "Failing" => fun _ _ _ _ => ⟨1, .raise (.user 0)⟩
-  | "Chain" => fun fn _ _ _ => if fn = 0 then ⟨0, .ret (.waitOn 1 [(0, 0)])⟩ else ⟨0, .ret (.stop none true)⟩
-  | _ => fun _ _ _ _ => ⟨0, .ret (.stop none true)⟩
-
-def init (name : String) : Cfg :=
-  if name = "Chain" then { efs := [.pending] } else {}
+/-- initial configuration of a process awaiting `nfut` external futures (all pending) -/
+def init (nfut : Nat) : Cfg := { efs := List.replicate nfut .pending }
 
 end PMF
